@@ -1,7 +1,7 @@
 /-! Association maps without duplicate keys (`insert` replaces).  Shared by all models. -/
 namespace WalrusVerif
 
-def AMap (κ ν : Type) := List (κ × ν)
+abbrev AMap (κ ν : Type) := List (κ × ν)
 
 instance {κ ν : Type} [Repr κ] [Repr ν] : Repr (AMap κ ν) := inferInstanceAs (Repr (List (κ × ν)))
 
